@@ -62,8 +62,8 @@ func runC22(c *core.Ctx) {
 		}
 		// SetCoinsCount(id.Uint32()) with the same id
 		same := false
-		if call, ok := core.Unwrap(setCount.Site.Arg(0)).(*ssa.Call); ok && strings.HasSuffix(core.CalleeName(&call.Call), "CoinID).Uint32") {
-			same = core.SameValue(call.Call.Args[0], idv)
+		if call, ok := core.Unwrap(setCount.Site.Arg(0)).(*ssa.Call); ok && strings.HasSuffix(core.CalleeName(core.NormCall(&call.Call)), "CoinID).Uint32") {
+			same = core.SameValue(core.NormCall(&call.Call).Args[0], idv)
 		}
 		c.Check(same, "C22.id", name+"/counter-is-id", setCount.Site.Pos(), "App.SetCoinsCount(id.Uint32()) with the id just used", "the counter is set to something other than the id just used: "+core.Path(setCount.Site.Arg(0)))
 		// must-pass: every OK return after create passes setCount
